@@ -17,6 +17,8 @@ import (
 	"github.com/criyle/go-sandbox/pkg/seccomp/libseccomp"
 	"github.com/criyle/go-sandbox/ptracer"
 	"github.com/criyle/go-sandbox/runner"
+	"github.com/criyle/go-sandbox/runner/ptrace"
+	"github.com/criyle/go-sandbox/runner/unshare"
 	"github.com/elastic/go-seccomp-bpf/arch"
 )
 
@@ -62,6 +64,8 @@ var hostilePrograms = []struct{ name, script string }{
 	{"deep", "fork;fork;fork;fork;sleep 30000;endfork;sleep 30000;endfork;sleep 30000;endfork;sleep 30000;endfork;sleep 10;exit 0"},
 	{"zombies", "fork;exit 1;endfork;fork;exit 2;endfork;fork;exit 3;endfork;sleep 10;exit 0"},
 	{"threads", "thread;sleep 30000;endthread;thread;spin 30000;endthread;sleep 10;exit 0"},
+	// descendants that have LEFT the process group (new session / own group) before the main process ends
+	{"session-leavers", "fork;setsid;sleep 30000;endfork;fork;setpgid;ignore 15;sleep 30000;endfork;sleep 40;exit 0"},
 }
 
 func runC12(res *Result, d *Driver, tier string, seed uint64) {
@@ -121,9 +125,15 @@ func runC12(res *Result, d *Driver, tier string, seed uint64) {
 			// refuse late, when the program has already built its process tree (sync after exec)
 			spec.SyncFunc = func(int) error { time.Sleep(25 * time.Millisecond); return errors.New("refused") }
 		}
+		t0 := time.Now()
 		r, _ := env.runProbe(spec, rng.Bool())
 		cancel()
 		key := fmt.Sprintf("container %s var%d", p.name, variation)
+		// the main process of every hostile program ends within 50 ms; descendants sleep for 30 s. A run that returns only
+		// when they are gone by themselves did not kill them
+		if el := time.Since(t0); el > 10*time.Second {
+			res.Mismatch(Mismatch{Kind: "oracle", What: "the run returned only after the program's descendants ended on their own: they were not killed when the main process finished (C12)", Input: key + " script=" + script, Impl: fmt.Sprintf("returned after %v", el.Round(time.Millisecond)), Model: "returns as soon as the main process ended and everything was killed", Oracle: "violates"})
+		}
 		res.Case(key+itoa(i), true, "container-"+p.name)
 		res.Traces++
 		_ = r
@@ -218,6 +228,35 @@ func runC12(res *Result, d *Driver, tier string, seed uint64) {
 		e.Close()
 		res.Case("cycle"+itoa(i), true, "build-destroy")
 	}
+	// runs whose context outlives them (context.Background(), or one context shared by many runs): nothing of a finished
+	// run may stay behind waiting for that context
+	shared, cancelShared := context.WithCancel(context.Background())
+	for i := 0; i < 12; i++ {
+		ctx := context.Background()
+		if i%2 == 1 {
+			ctx = shared
+		}
+		pf := openProbe()
+		devnull, _ := os.Open(os.DevNull)
+		pr := &ptrace.Runner{Args: []string{"probe", "exit 0"}, ExecFile: pf.Fd(), Files: []uintptr{devnull.Fd(), devnull.Fd(), devnull.Fd()},
+			Limit: bigLimit, Seccomp: allowAll(), Handler: allowHandler{}}
+		r := pr.Run(ctx)
+		ur := &unshare.Runner{Args: []string{"probe", "exit 0"}, ExecFile: pf.Fd(), Files: []uintptr{devnull.Fd(), devnull.Fd(), devnull.Fd()}, Limit: bigLimit}
+		r2 := ur.Run(ctx)
+		pf.Close()
+		devnull.Close()
+		res.Case("long-lived-context"+itoa(i), true, "long-lived-context")
+		if r.Status != runner.StatusNormal || r2.Status != runner.StatusNormal {
+			res.Note("long-lived-context run %d: %v / %v", i, r, r2)
+		}
+	}
+	runtime.GC()
+	okLong := settle(func() bool { return runtime.NumGoroutine() <= baseGor })
+	if !okLong {
+		res.Mismatch(Mismatch{Kind: "oracle", What: "goroutines of finished runs stay behind while the caller's context lives (C12: goroutines return to baseline)", Input: "12 ptrace + 12 namespace runs with context.Background() / one shared context, all finished",
+			Impl: fmt.Sprintf("goroutines=%d (baseline %d)", runtime.NumGoroutine(), baseGor), Oracle: "violates"})
+	}
+	cancelShared()
 	runtime.GC()
 	okHost := settle(func() bool {
 		return fdCount(os.Getpid()) <= baseFds && len(childrenOf(os.Getpid())) == baseChildren && runtime.NumGoroutine() <= baseGor
